@@ -311,6 +311,9 @@ pub fn run(ctx: &Ctx, replay: Option<&J>) -> i32 {
     if let Some(r) = replay {
         let mut sess = Session::new();
         sess.run(&prelude());
+        if let Some(d) = r["case"]["defs"].as_str() {
+            sess.run(d);
+        }
         let a = r["case"]["a"].as_str().unwrap_or("");
         let b = r["case"]["b"].as_str().unwrap_or("");
         let (oa, ob) = (sess.run(a), sess.run(b));
@@ -323,6 +326,49 @@ pub fn run(ctx: &Ctx, replay: Option<&J>) -> i32 {
     }
     let ls = lists(!ctx.quick());
     par_for_ctx(ctx, ls.len(), |i| check_list(ctx, &ls[i]));
+    // `x into f` against `f(x)` when the function recurses through the form itself, at depths up to
+    // just below the call-depth limit: both forms must agree on the value or on failing
+    {
+        let defs = "ci = n => if n <= 0 then 0 else 1 + ((n - 1) into ci)\ncc = n => if n <= 0 then 0 else 1 + cc(n - 1)\nei = n => if n <= 0 then 0 else 1 + ((n - 1) into oi)\noi = n => if n <= 0 then 0 else 1 + ((n - 1) into ei)\nec = n => if n <= 0 then 0 else 1 + oc(n - 1)\noc = n => if n <= 0 then 0 else 1 + ec(n - 1)\nwi = n => if n <= 0 then 0 else 1 + do {\n  m = n - 1\n  return m into wi\n}\nwc = n => if n <= 0 then 0 else 1 + do {\n  m = n - 1\n  return wc(m)\n}";
+        let depths: Vec<usize> = if ctx.quick() { vec![37, 100, 333, 499, 500, 501, 640, 700, 900, 990, 999] } else { (1..=1010).step_by(7).chain([499, 500, 501, 998, 999, 1000, 1001]).collect() };
+        let results: Vec<(usize, Vec<(String, String, Outcome, Outcome)>)> = on_big_stack(|| {
+            let mut out = vec![];
+            for &k in &depths {
+                let mut sess = Session::new();
+                let _ = sess.run(defs);
+                let mut row = vec![];
+                for (a, b) in [("ci", "cc"), ("ei", "ec"), ("wi", "wc")] {
+                    let pa = format!("{}({})", a, k);
+                    let pb = format!("{}({})", b, k);
+                    let pa2 = format!("{} into {}", k, a);
+                    let oa = sess.run(&pa);
+                    let ob = sess.run(&pb);
+                    let oa2 = sess.run(&pa2);
+                    row.push((pa, pb.clone(), oa, ob.clone()));
+                    row.push((pa2, pb, oa2, ob));
+                }
+                out.push((k, row));
+            }
+            out
+        });
+        for (_, row) in &results {
+            for (pa, pb, oa, ob) in row {
+                ctx.count(2);
+                ctx.nontrivial(pa);
+                ctx.outcome(if oa.is_ok() { "deep-into-ok" } else { "deep-into-fail" });
+                if !same(oa, ob) {
+                    ctx.violation(Violation {
+                        kind: "into-apply".into(),
+                        class: "deep-recursion".into(),
+                        input: format!("{}  <=>  {}", pa, pb),
+                        expected: ob.cmp_key(),
+                        observed: oa.cmp_key(),
+                        case: json!({"a": pa, "b": pb, "defs": defs}),
+                    });
+                }
+            }
+        }
+    }
     ctx.set("lists", json!(ls.len()));
     ctx.set("functions", json!(unary_funcs().iter().map(|f| f.src.clone()).collect::<Vec<_>>()));
     ctx.sample(json!({"a": "[3, 1] via fact", "b": "map([3, 1], fact)"}));
